@@ -1,5 +1,6 @@
 import NssVerif.RealInst
 import NssVerif.Model.Kinematics
+import NssVerif.Gen.Src.C07
 import Mathlib.Tactic.Ring
 import Mathlib.Tactic.Linarith
 import Mathlib.Tactic.Positivity
@@ -181,5 +182,21 @@ example : (1:ℝ) < tauLorentz 3000 := gamma_gt_one 3000 (by rw [massTau_val]; n
 example : 0 ≤ lenDec (tauLorentz 3000) (tauBeta (tauLorentz 3000)) (1/2 : ℝ) :=
   lenDec_nonneg _ _ _ (by have := gamma_gt_one 3000 (by rw [massTau_val]; norm_num); linarith)
     (speed_in_unit _ (gamma_gt_one 3000 (by rw [massTau_val]; norm_num))).1.le (by norm_num) (by norm_num)
+
+/-! ### source tie: the functions translated from the Python source of the working tree ARE the model
+
+`Gen/Src/C07.lean` is regenerated from `eas.py` / `taus.py` on every run (harness/pytrans.py).  The equalities below hold
+for every `Scalar` instance — over ℝ (what the theorems above are about) and at `Float` (what the driver executes) — so the
+theorems above are theorems about the translated source. -/
+
+/-- `EAS.altDec` as translated from the source equals the model's `altDec` -/
+theorem src_altDec {α : Type} [Scalar α] (beta bt g u : α) :
+    Gen.Src.C07.altDec beta bt g u = altDec beta bt g u := rfl
+
+/-- `Taus.__call__` as translated from the source (its two table look-ups left as inputs) returns
+(speed, Lorentz factor, energy, shower energy, exit probability) computed by the model's formulas -/
+theorem src_tausCall {α : Type} [Scalar α] (_betas _logENu frac pexit eTau : α) :
+    Gen.Src.C07.tausCall _betas _logENu frac pexit eTau
+      = (tauBeta (tauLorentz eTau), tauLorentz eTau, eTau, showerEnergy frac eTau, pexit) := rfl
 
 end C07
